@@ -100,6 +100,14 @@ func (n *namer) take(s string) bool {
 	return true
 }
 
+var bitIndices = func() []int {
+	x := make([]int, 64)
+	for i := range x {
+		x[i] = i
+	}
+	return x
+}()
+
 // forceFiles, when positive, is the number of files of the next models (the draw still takes place).
 var forceFiles int
 
@@ -220,8 +228,10 @@ func drawDialectModel(t *rapid.T, idx int) XDialect {
 			}
 			e.Desc = drawDesc(t, "edesc")
 			nent := rapid.IntRange(1, 6).Draw(t, "nentries")
+			var manyBits []int
 			if e.Bitmask && rapid.IntRange(0, 9).Draw(t, "many_flags") == 0 {
-				nent = rapid.IntRange(30, 50).Draw(t, "nentries_many") // the text of all flags together is well over a kilobyte
+				nent = rapid.IntRange(33, 60).Draw(t, "nentries_many") // the text of all flags together is well over a kilobyte
+				manyBits = rapid.Permutation(bitIndices).Draw(t, "many_bits")
 			}
 			// ordinary enums that merely look like flag sets (all values powers of two) stay ordinary
 			flagLike := !e.Bitmask && rapid.IntRange(0, 4).Draw(t, "flag_like") == 0
@@ -241,6 +251,8 @@ func drawDialectModel(t *rapid.T, idx int) XDialect {
 					v = uint64(dense[j])
 				} else if flagLike {
 					v = uint64(1) << uint(rapid.IntRange(0, 10).Draw(t, "bit"))
+				} else if e.Bitmask && manyBits != nil {
+					v = uint64(1) << uint(manyBits[j%64]) // distinct bits: more than 32 flags, all of which can be set at once
 				} else if e.Bitmask {
 					v = uint64(1) << uint(rapid.OneOf(rapid.IntRange(0, 12), rapid.IntRange(0, 63)).Draw(t, "bit"))
 				} else {
